@@ -238,7 +238,7 @@ pub struct Global {
     pct_low: u64,
     dev_cursor: usize,
     /// shared file mappings addr -> len
-    pub maps: Vec<(usize, usize)>,
+    pub maps: Vec<(usize, usize, u32)>,
     pub log_seam: bool,
     pub faults_suspended: bool,
     pub pending_exit: i64,
@@ -843,6 +843,17 @@ fn do_crash() -> ! {
         if i != my && gl.slots[i].pid == pid && !matches!(gl.slots[i].st, St::Exited | St::Free) {
             gl.slots[i].st = St::Crashed;
             gl.slots[i].cond = Cond::None;
+        }
+    }
+    // the dead process's address space goes away with it: its shared mappings are unmapped
+    let mut i = 0;
+    while i < gl.maps.len() {
+        if gl.maps[i].2 == pid {
+            let (a, l, _) = gl.maps.swap_remove(i);
+            unsafe { raw6(libc::SYS_munmap, a as i64, l as i64, 0, 0, 0, 0) };
+            gl.stats.shared_maps -= 1;
+        } else {
+            i += 1;
         }
     }
     gl.slots[my].label = format!("reaper(pid{})", pid);
@@ -1811,7 +1822,8 @@ pub unsafe extern "C" fn mmap(addr: *mut libc::c_void, len: usize, prot: i32, fl
     let r = raw6(libc::SYS_mmap, addr as i64, len as i64, prot as i64, flags as i64, fd as i64, off);
     if fd >= 0 && flags & libc::MAP_SHARED != 0 && enter(false) && !(r < 0 && r > -4096) {
         let gl = g();
-        gl.maps.push((r as usize, len));
+        let owner = gl.slots[me()].pid;
+        gl.maps.push((r as usize, len, owner));
         gl.stats.shared_maps += 1;
         gl.stats.shared_maps_total += 1;
         trace(S_MMAP, lid_of(fd), len as i64, 0);
@@ -1832,7 +1844,7 @@ pub unsafe extern "C" fn munmap(addr: *mut libc::c_void, len: usize) -> i32 {
         let gl = g();
         if my != usize::MAX && !matches!(gl.slots[my].st, St::Exited | St::Crashed) {
             if let Some(i) = gl.maps.iter().position(|m| m.0 == addr as usize) {
-                let (_, l) = gl.maps.swap_remove(i);
+                let (_, l, _) = gl.maps.swap_remove(i);
                 gl.stats.shared_maps -= 1;
                 trace(S_MUNMAP, l as i64, len as i64, r);
             }
